@@ -31,6 +31,10 @@ type Engine struct {
 	MaxSteps int
 	// Opaque: callees that are never inlined (their result is an application value).
 	Opaque func(fn *ssa.Function) bool
+	// Ext switches on the opt-in extensions used by C20 (range over a map as a havoc'ed key per
+	// iteration, events for delete(map, key) and for append(slice, other...)). Off by default:
+	// the engine then behaves exactly as before.
+	Ext    bool
 	apps   map[symID]*appInfo
 	// rfApps: sqrt applications whose argument is a rational function (canonical reuse)
 	rfApps   map[string][]symID
@@ -74,6 +78,9 @@ const (
 	EvMapUpdate
 	EvBulkWrite // copy/append/clear/delete acting on a tracked object
 	EvAppend    // append(base, v1..vk) with known values: Slice = base, Args = values, Val = result
+	// only with Engine.Ext:
+	EvMapDelete   // delete(m, k): Args = [m, k]
+	EvAppendSlice // append(base, other...) with an unknown number of values: Slice = base, Args = [other], Val = result
 )
 
 type Event struct {
@@ -336,6 +343,8 @@ type frame struct {
 	loops []*ssau.Loop
 	hdr   map[*ssa.BasicBlock]*ssau.Loop
 	act   map[*ssau.Loop]*LoopEntry
+	// unrolled: (Ext) visits of the headers of constant-bound loops that are executed concretely
+	unrolled map[*ssa.BasicBlock]int
 }
 
 func (r *xrun) call(fn *ssa.Function, args []Val, binds []Val, ctx string, depth int) []Val {
@@ -380,7 +389,16 @@ func (r *xrun) call(fn *ssa.Function, args []Val, binds []Val, ctx string, depth
 		}
 		// loop header handling
 		havoc := false
-		if l := f.hdr[blk]; l != nil && prev != nil {
+		if l := f.hdr[blk]; l != nil && prev != nil && e.Ext && unrollable(blk) {
+			// (Ext) a counted loop over at most 4 constant indices is executed iteration by iteration
+			if f.unrolled == nil {
+				f.unrolled = map[*ssa.BasicBlock]int{}
+			}
+			f.unrolled[blk]++
+			if f.unrolled[blk] > 64 {
+				r.abort("constant-bound loop in %s does not terminate symbolically", fn)
+			}
+		} else if l != nil && prev != nil {
 			if l.Blocks[prev] {
 				// back edge: the symbolic iteration ends here
 				ent := f.act[l]
@@ -687,6 +705,15 @@ func (f *frame) step(in ssa.Instruction) {
 			}
 			f.r.note("array indexed by a non-constant in %s", f.fn)
 			f.set(x, OpaqueV{name: "&" + e.valKey(base) + "[" + e.valKey(idx) + "]"})
+		case ElemPtr:
+			// (Ext) constant index into an array that is (part of) a slice element: s[i][2]
+			if is, ok := idx.(Scalar); ok && e.Ext {
+				if c, isC := is.v.Const(); isC && c.IsInt() {
+					f.set(x, ElemPtr{sl: b.sl, idx: b.idx, path: appendPath(b.path, int(c.Num().Int64()))})
+					return
+				}
+			}
+			f.set(x, OpaqueV{name: "&" + e.valKey(base) + "[" + e.valKey(idx) + "]"})
 		default:
 			f.set(x, OpaqueV{name: "&" + e.valKey(base) + "[" + e.valKey(idx) + "]"})
 		}
@@ -759,7 +786,21 @@ func (f *frame) step(in ssa.Instruction) {
 		f.r.note("defer in %s is not modelled", f.fn)
 	case *ssa.Go:
 		f.r.note("go statement in %s is not modelled", f.fn)
-	case *ssa.Range, *ssa.Next:
+	case *ssa.Range:
+		if e.Ext {
+			if _, isMap := x.X.Type().Underlying().(*types.Map); isMap {
+				f.set(x, &RangeIterV{over: f.eval(x.X), id: fmt.Sprintf("%s%s.%s", f.ctx, f.fn.Name(), x.Name())})
+				return
+			}
+		}
+		f.r.abort("range over map/string in %s is not modelled", f.fn)
+	case *ssa.Next:
+		if e.Ext && !x.IsString {
+			if it, ok := f.eval(x.Iter).(*RangeIterV); ok {
+				f.set(x, f.nextOf(x, it))
+				return
+			}
+		}
 		f.r.abort("range over map/string in %s is not modelled", f.fn)
 	case *ssa.Select, *ssa.Send:
 		f.r.abort("channel operation in %s is not modelled", f.fn)
@@ -1201,10 +1242,10 @@ func (e *Engine) CmpAtom(op token.Token, a, b Scalar) BoolV {
 		return BoolV{atom: Atom{key: pos.String(e.ST) + " >= 0", neg: pos.Neg().String(e.ST) + " > 0", p: pos}, deps: deps}
 	case token.EQL:
 		n := p.leadNormalize(e.ST, false)
-		return BoolV{atom: Atom{key: n.String(e.ST) + " == 0", neg: n.String(e.ST) + " != 0"}, deps: deps}
+		return BoolV{atom: Atom{key: n.String(e.ST) + " == 0", neg: n.String(e.ST) + " != 0", eq: n}, deps: deps}
 	default:
 		n := p.leadNormalize(e.ST, false)
-		return BoolV{atom: Atom{key: n.String(e.ST) + " != 0", neg: n.String(e.ST) + " == 0"}, deps: deps}
+		return BoolV{atom: Atom{key: n.String(e.ST) + " != 0", neg: n.String(e.ST) + " == 0", eq: n}, deps: deps}
 	}
 }
 
@@ -1233,6 +1274,11 @@ func (f *frame) binop(op token.Token, a, b Val, operandT types.Type, at ssa.Valu
 			return e.CmpAtom(op, sa, sb)
 		}
 		return e.app("op"+op.String(), []Scalar{sa, sb})
+	}
+	if e.Ext && (op == token.EQL || op == token.NEQ) {
+		if v, ok := f.compositeEq(op, a, b); ok {
+			return v
+		}
 	}
 	switch op {
 	case token.EQL, token.NEQ:
@@ -1639,8 +1685,25 @@ func (f *frame) builtin(name string, args []Val, call *ssa.Call) Val {
 		if st, ok := call.Type().Underlying().(*types.Slice); ok {
 			el = st.Elem()
 		}
-		return &SliceObj{id: nm, origin: "append", ln: e.symScalar(id), elem: el, content: map[string]Val{}}
+		out := &SliceObj{id: nm, origin: "append", ln: e.symScalar(id), elem: el, content: map[string]Val{}}
+		if e.Ext && len(args) == 2 {
+			if base, ok := args[0].(*SliceObj); ok {
+				if extra, ok := args[1].(*SliceObj); ok {
+					// the prefix is kept: len(result) = len(base) + len(other)
+					out.ln = e.Add(base.ln, extra.ln)
+					out.appendBase = base
+					f.r.events = append(f.r.events, Event{Kind: EvAppendSlice, Slice: base, Args: []Val{extra}, Val: out, Loop: f.r.curLoop(), Pos: call.Pos(), In: f.fn})
+				}
+			}
+		}
+		return out
 	case "copy", "clear", "delete":
+		if name == "delete" && e.Ext && len(args) == 2 {
+			if _, isMap := args[0].(*MapV); isMap {
+				f.r.events = append(f.r.events, Event{Kind: EvMapDelete, Args: []Val{args[0], args[1]}, Loop: f.r.curLoop(), Pos: call.Pos(), In: f.fn})
+				return nil
+			}
+		}
 		for i, a := range args {
 			if so, ok := a.(*SliceObj); ok && i == 0 {
 				f.r.events = append(f.r.events, Event{Kind: EvBulkWrite, Slice: so, Callee: name, Loop: f.r.curLoop(), Pos: call.Pos(), In: f.fn})
